@@ -66,7 +66,7 @@ def world_for(outcome):
     if outcome == 'own-endpoint-under-delete-table':
         rx = [('^dtn://node/$', 'delete'), ('^dtn://.*', 'forward')]
     tx = [('^dtn://far/.*', 'dtn://next/', None), ('^dtn://farfrag/.*', 'dtn://next/', 120), ('^dtn://fartiny/.*', 'dtn://next/', 60),
-          ('^dtn://rpt/.*', 'dtn://next/', None), ('^ipn:9\\..*', 'dtn://next/', None), ('^ipn:977000\\.100\\..*', 'dtn://next/', None)]
+          ('^dtn://rpt/.*', 'dtn://next/', None), ('^dtn://Rp/.*', 'dtn://next/', None), ('^ipn:9\\..*', 'dtn://next/', None), ('^ipn:977000\\.100\\..*', 'dtn://next/', None)]
     if outcome == 'node-prefix-endpoint-under-forward-table':
         rx = [('^dtn://.*', 'forward')]
         tx = tx + [('^dtn://node/.*', 'dtn://next/', None)]
@@ -91,6 +91,9 @@ def bundle_for(outcome, flags, report_to, seq=1, subject='clock'):
     if subject == 'ipn3':
         # three-number ipn endpoint IDs as the subject's source (its report-to is given by the caller)
         pri.update(src='ipn:977000.5.1')
+    if subject == 'odd-eids':
+        # endpoint IDs whose node name has capitals and whose demux part is only a query
+        pri.update(src='dtn://Sr/?s=7')
     if subject == 'clockless':
         # a source without a clock: creation time zero, told apart by the sequence number, with an age block
         pri.update(ts=(0, 7 + seq))
@@ -239,7 +242,8 @@ def run_outcome(params, known):
     keys = set()
     count = 0
     samples = []
-    combos = [('dtn:none', 'clock'), ('dtn://rpt/x', 'clock'), ('dtn://rpt/x', 'clockless'), ('ipn:977000.100.7', 'ipn3')]
+    combos = [('dtn:none', 'clock'), ('dtn://rpt/x', 'clock'), ('dtn://rpt/x', 'clockless'), ('ipn:977000.100.7', 'ipn3'),
+              ('dtn://Rp/?b', 'odd-eids')]
     if params.get('tier') == 'thorough':
         combos += [('dtn://rpt/x', 'crc0'), ('dtn://rpt/x', 'crc2'), ('ipn:9.9', 'clock'), ('dtn:none', 'clockless')]
         if outcome in ('forward', 'delete-by-route', 'forward-without-tx-route', 'no-matching-route'):
